@@ -54,6 +54,7 @@ type world struct {
 	script  []*opSpec
 	stepNo  int
 	flights []*flight
+	issued  []*flight // every request of the case
 	labels  map[string]int
 	diags   map[string]int
 	evMain  map[string]int // model events before the final drain
@@ -210,6 +211,7 @@ func (w *world) issue(c *cClient, op *opSpec) {
 	}
 
 	fl := &flight{op: op, ctl: newOpCtl(op.Park), done: make(chan *nfsv4.Compound4res, 1), client: c}
+	w.issued = append(w.issued, fl)
 	fl.sweepy = w.m.sweepWould()
 	fl.before = w.snap()
 	args := buildCompound(op)
@@ -534,5 +536,26 @@ func (w *world) finish() {
 			continue
 		}
 		w.issue(ghost, &opSpec{Kind: kPutfh, FH: l.fh, Note: "final_probe"})
+	}
+}
+
+// unparkAll lets every parked request go (repeatedly: a request that
+// waited behind a released one may park itself) so that the bubble can end.
+func (w *world) unparkAll() {
+	for round := 0; round < 8; round++ {
+		any := false
+		for _, fl := range w.issued {
+			if fl.ctl.where() != "" {
+				any = true
+				func() {
+					defer func() { recover() }()
+					close(fl.ctl.release)
+				}()
+			}
+		}
+		synctest.Wait()
+		if !any {
+			return
+		}
 	}
 }
